@@ -43,12 +43,16 @@ def transform_zoo(tier):
                         make=lambda mode=mode: (lambda x, m=SWTForward(J=2, wave="db2", mode=mode): flat(m(x))), inv=None))
     for (biort, qshift, J, hw, kw) in [("near_sym_a", "qshift_a", 3, (13, 10), {}), ("legall", "qshift_06", 2, (8, 8), {}),
                                        ("near_sym_b", "qshift_d", 2, (6, 9), dict(o_dim=1, ri_dim=2)),
-                                       ("antonini", "qshift_c", 3, (16, 12), dict(include_scale=True, skip_hps=[True, False, False]))]:
+                                       ("antonini", "qshift_c", 3, (16, 12), dict(include_scale=True, skip_hps=[True, False, False])),
+                                       # the level-1 stage also exists with zero extension (mode != 'symmetric'; the q-shift
+                                       # levels do not implement it, hence J = 1)
+                                       ("near_sym_a", "qshift_a", 1, (10, 8), dict(mode="zero")),
+                                       ("near_sym_b", "qshift_a", 1, (9, 12), dict(mode="zero"))]:
         zoo.append(dict(name="DTCWTForward(%s,%s,J=%d,%s)" % (biort, qshift, J, kw), shape=lambda N, C, hw=hw: (N, C) + hw,
                         make=lambda biort=biort, qshift=qshift, J=J, kw=kw: (
                             lambda x, m=pw.DTCWTForward(biort=biort, qshift=qshift, J=J, **kw): flat(m(x))),
                         inv=(lambda biort=biort, qshift=qshift, kw=kw: pw.DTCWTInverse(
-                            biort=biort, qshift=qshift, **{k: v for k, v in kw.items() if k in ("o_dim", "ri_dim")}))
+                            biort=biort, qshift=qshift, **{k: v for k, v in kw.items() if k in ("o_dim", "ri_dim", "mode")}))
                         if "include_scale" not in kw else None))
     if tier == "quick":
         return zoo
